@@ -93,11 +93,19 @@ def mergeMsas (ms : List FMsa) : Option FMsa :=
     if !rows.all (fun r => r.length == alenM) || rfM.length != alenM then none else
     some { m0 with alen := alenM, names := names, aseq := rows, wgt := parts.flatMap (·.2.2), rf := some rfM }
 
-/-- stdout of `esl-alimerge [--outformat fmt] (--dna|--rna|--amino) <file1> <file2>` / `--list <listfile>`: every alignment of every file -/
-def alimerge (outfmt : String) (srcs : List Bytes) : Option Bytes := do
+/-- `--rfonly`: `esl_msa_ColumnSubset` with `useme[apos] = rfchar_is_nongap_nonmissing(rf[apos])` on every input before merging
+    (alignments of names, rows and RF only: nothing else to repair); no insert region is left, so nothing is added afterwards -/
+def rfOnly (m : FMsa) : FMsa :=
+  let rf := m.rf.getD []
+  let keep (r : Bytes) : Bytes := ((r.zip rf).filter fun p => !rfIsGap p.2 && !rfIsMissing p.2).map (·.1)
+  { m with alen := clenOf rf, aseq := m.aseq.map keep, rf := some (keep rf) }
+
+/-- stdout of `esl-alimerge [--rfonly] [--outformat fmt] (--dna|--rna|--amino) <file1> <file2>` / `--list <listfile>`: every alignment of every file -/
+def alimerge (outfmt : String) (srcs : List Bytes) (rfonly : Bool := false) : Option Bytes := do
   let mss ← srcs.mapM fun src => readFile "stockholm" src
   if mss.any (·.isEmpty) then none
-  let m ← mergeMsas mss.flatten
+  if !mss.flatten.all mergeable then none
+  let m ← mergeMsas (if rfonly then mss.flatten.map rfOnly else mss.flatten)
   if (m.names.eraseDups).length != m.names.length then none
   msafileWriteTool outfmt none m
 
